@@ -314,6 +314,27 @@ func getPrimaryKey(index *index, k string) (string, bool) {
 	return pk, ok
 }
 
+// CheckStartKey reports an ExclusiveStartKey that is not a key of the table (and, for a read through
+// an index, of that index): a read from a key that cannot be located would silently start over
+func (t *Table) CheckStartKey(indexName string, startKey map[string]*types.Item) error {
+	if len(startKey) == 0 {
+		return nil
+	}
+
+	schemas := []keySchema{t.KeySchema}
+	if i, ok := t.Indexes[indexName]; ok {
+		schemas = append(schemas, i.keySchema)
+	}
+
+	for _, schema := range schemas {
+		if _, err := schema.getKeyValue(t.AttributesDef, startKey); err != nil {
+			return types.NewError("ValidationException", "The provided starting key is invalid: "+err.Error(), nil)
+		}
+	}
+
+	return nil
+}
+
 // HasIndex reports whether the table has a secondary index with the given name
 func (t *Table) HasIndex(name string) bool {
 	_, ok := t.Indexes[name]
